@@ -45,12 +45,25 @@ def check_C11(ctx):
         raise Infra("MC_C11 emitted no cases")
     obs = ctx.run_cases(cases)
     ctx.validate(obs)
+    omni(ctx, offset=11)
     return finish(ctx, rule="every case of the bounded families G1-G7 of MC_C11 (L=%d) is explored step by step by TLC "
                             "(invariants in every render state), emitted, rendered by the implementation and the "
                             "observation validated against LqRender; non-trivial = the specification decides the "
                             "output (not Unspec); distinct by template text" % L,
                   assumptions=TRUSTED)
 
+
+
+def omni(ctx, quick_n=1500, thorough_n=20000, offset=0):
+    """Seeded programs from the whole grammar over rich environments in random representations and spellings,
+    each parsed once and rendered several times; decided by the render reference (TraceRender)."""
+    cases = ctx.gen("omni", quick_n if ctx.quick else thorough_n, seed_offset=1000 * offset)
+    for c in cases:
+        c["id"] = "omni%d-%s" % (offset, c["id"])
+    ctx.validate(ctx.run_cases(cases))
+    ctx.exhaustive = False
+    ctx.notes.append("plus %d seeded `omni` programs (whole grammar, rich bindings, random representations/spellings, "
+                     "multi-line tags, each rendered 2-3 times) validated by TraceRender" % len(cases))
 
 
 def validate_by_module(ctx, obs, default="TraceRender"):
@@ -99,6 +112,7 @@ def check_C16(ctx):
         obs = ctx.run_cases(cases)
         ctx.validate(obs)
         ctx.notes.append("%s x the string-filter call grid: %d cases" % (what, len(cases)))
+    omni(ctx, offset=16)
     return finish(ctx, rule="every (string, string-filter call) of the bounded grids of MC_C16; TLC checks the algebraic laws "
                             "of the statement on LqFilters for each, the implementation renders {{ s | f: args }}#{{ s }} and "
                             "TraceRender validates the observation; non-trivial = LqFilters decides the result",
@@ -116,6 +130,7 @@ def check_C17(ctx):
     cases, _ = ctx.tlc_mc("MC_C17", mc_cfg({"K": k}, C17_LAWS + ["EmitCase"]), timeout=1800)
     obs = ctx.run_cases(cases)
     ctx.validate(obs)
+    omni(ctx, offset=17)
     return finish(ctx, rule="every (receiver, numeric filter, argument) over integers -K..K (K=%d), quarters, numeric and "
                             "non-numeric strings and nil; TLC checks the arithmetic laws on the exact-rational reference, the "
                             "implementation renders {{ x | f: y }} and TraceRender validates it; non-trivial = decided" % k,
@@ -133,6 +148,7 @@ def check_C15(ctx):
     cases, _ = ctx.tlc_mc("MC_C15", mc_cfg({"N": n, "Reprs": "TRUE"}, C15_LAWS + ["EmitCase"]), timeout=1800)
     obs = ctx.run_cases(cases)
     ctx.validate(obs)
+    omni(ctx, offset=15)
     return finish(ctx, rule="every array of <= %d elements over four element universes (numbers with nil, strings, maps with "
                             "present/absent/nil key, ints) x the array-filter calls and two-filter chains x the Go "
                             "representations that can hold it (generic, typed slice, fixed array, ordered map); the probe "
@@ -151,6 +167,7 @@ def check_C10(ctx):
         gen_cases = ctx.gen("cond", 20000)
         ctx.validate(ctx.run_cases(gen_cases))
         ctx.exhaustive = False
+    omni(ctx, offset=10)
     return finish(ctx, rule="every case of the families chain (1-3 conditions over a 10-value universe, with/without else), "
                             "dual (if vs unless), later (failing condition before/after the selected branch), case/when lists "
                             "and nest of MC_C10, explored step by step by TLC against the declarative first-truthy definition, "
@@ -169,6 +186,7 @@ def check_C12(ctx):
     if not ctx.quick:
         ctx.validate(ctx.run_cases(ctx.gen("prog", 20000)))
         ctx.exhaustive = False
+    omni(ctx, offset=12)
     return finish(ctx, rule="every program of <= %d statements over the 9-statement pool of MC_C12 (plus its capture-wrapped "
                             "twin), explored step by step by TLC against a declarative store semantics and the capture law, "
                             "rendered by the implementation and trace-validated" % n +
@@ -186,6 +204,7 @@ def check_C08(ctx):
     d = 2 if ctx.quick else 3
     cases, _ = ctx.tlc_mc("MC_C08", mc_cfg({"D": d}, C08_LAWS + ["EmitCase"]), timeout=1800)
     ctx.validate(ctx.run_cases(cases))
+    omni(ctx, offset=8)
     return finish(ctx, rule="every case of the families index (length 0..5 x 23 index values x literal/variable), look (12 bases x "
                             "18 paths x strict), pipe (chains <= %d of 13 steps x 5 receivers, direct and assign-decomposed), bad "
                             "(unknown filter, too many arguments for each of 43 filters), lit, space (8 programs x 6 spacings x "
@@ -399,6 +418,7 @@ def check_C14(ctx):
 def check_C18(ctx):
     cases, _ = ctx.tlc_mc("MC_C18", mc_cfg({"Full": "FALSE" if ctx.quick else "TRUE"}, ["ReferenceDecides", "EmitCase"]))
     ctx.validate(ctx.run_cases(cases))
+    omni(ctx, offset=18)
     return finish(ctx, rule="MC_C18: nine families of probe templates (numbers of every width printed/compared/in arithmetic, typed "
                             "slices and fixed arrays, typed and ordered maps, []byte, pointers, Drops at every subset of the nodes of "
                             "a nested environment) x the representation assignments the statement allows; each realisation is "
